@@ -3,7 +3,7 @@ import NomtModel.Api.Locks2Dead
 /-!
 # C15 (topic: conformance of RECORDED executions of the real store)
 
-The lock recorder (hook H18) and `vharness lockrec` turn an execution of the real `Nomt` under real threads into a log
+The lock recorder (hook LR) and `vharness lockrec` turn an execution of the real `Nomt` under real threads into a log
 of `call` / `at` (/ `spur`) lines in real-time order; `Locks2.replay` (`Api/Locks2Replay.lean`) is the function the
 driver mode `locks` executes on them.  If it accepts a log — every recorded micro-step is the thread's next micro-step
 in the model and is enabled in the state the recorded prefix leads to — the log IS a run of the two-lock LTS, and the
